@@ -13,6 +13,9 @@ struct DriverBase {
     Ctx& ctx;
     int pool;
     bool misuse; // F2 steps are executed (contract-checking flavour and not the C02 profile)
+    // set by a driver for a step whose outcome the library documents (refusal, clamp): if the handler is entered there,
+    // the documented answer was not given, which also breaks the functional property named here
+    char const* answerProp = nullptr;
 
     DriverBase(Plan const& p, Ctx& c)
         : plan(p)
@@ -26,7 +29,8 @@ struct DriverBase {
 
     void begin_op(char const* name, int a)
     {
-        ctx.op = name;
+        ctx.op     = name;
+        answerProp = nullptr;
         crash_set_op(name);
         ctx.log.s(name);
         ctx.log.kv("a", a);
@@ -87,6 +91,9 @@ struct DriverBase {
                 }
             } else {
                 ctx.violation("C05", "contract:spurious", "handler entered on a valid call at " + trap_site());
+                if (answerProp != nullptr) {
+                    ctx.violation(answerProp, "refusal:trapped-instead", "a call with a documented answer at capacity entered the handler at " + trap_site());
+                }
                 ctx.log.s(" ->spurious-trap");
                 if (s >= 0) {
                     self().resync(s);
